@@ -36,6 +36,7 @@ fn main() {
     match argv[1].as_str() {
         "tables" => by_kind!(kind, tables, &args),
         "hist" => by_kind!(kind, hist, &args),
+        "reorder" => by_kind!(kind, reorder, &args),
         d => {
             eprintln!("unknown driver {d}");
             std::process::exit(2);
